@@ -11,7 +11,7 @@ use rust_rule_engine::rete::{FactValue, TypedFacts};
 use rust_rule_engine::types::{ActionType, Operator, Value as RV};
 use serde_json::{json, Map, Value};
 
-const VALS: [&str; 12] = ["i1", "f1", "s1", "bt", "st", "arr", "null", "z", "nz", "nan", "tiny", "i0"];
+const VALS: [&str; 14] = ["i1", "f1", "s1", "bt", "st", "arr", "null", "z", "nz", "nan", "tiny", "i0", "az", "anz"];
 
 pub fn fv(tag: &str) -> Option<FactValue> {
     Some(match tag {
@@ -27,6 +27,8 @@ pub fn fv(tag: &str) -> Option<FactValue> {
         "nan" => FactValue::Float(f64::NAN),
         "tiny" => FactValue::Float(1e-20),
         "i0" => FactValue::Integer(0),
+        "az" => FactValue::Array(vec![FactValue::Float(0.0), FactValue::Float(2.5)]),
+        "anz" => FactValue::Array(vec![FactValue::Float(-0.0), FactValue::Float(2.5)]),
         "sx" => FactValue::String("C:\\t \"q\"\n".into()),
         _ => return None,
     })
